@@ -945,6 +945,107 @@ func registerIntrinsics(m *Machine) {
 		ln := BV(64, uint64(n))
 		return done(Slice{AL: al, Off: BV(64, 0), Len: ln, Cap: ln})
 	}
+	// zzDCTII(in, out, eps): for every real vector x the kernel output (terms in out, inputs in in) is within
+	// eps*||x||_1 of the unscaled DCT-II: decided by an LRA query per output (lin.go)
+	I["zzDCTII32"] = func(m *Machine, fr *Frame, a []Value, call ssa.Instruction, d bool) (Value, int) {
+		in, out := a[0].(Slice), a[1].(Slice)
+		eps := math.Float64frombits(a[2].(*T).C)
+		epsRound := math.Float64frombits(a[3].(*T).C)
+		n := int(in.Len.C)
+		if !in.Len.IsC || !out.Len.IsC || int(out.Len.C) != n || in.AL == nil || out.AL == nil {
+			panic(unsupported{"zzDCTII: concrete equal lengths expected"})
+		}
+		w := 32
+		if strings.HasSuffix(call.(*ssa.Call).Call.StaticCallee().Name(), "64") {
+			w = 64
+		}
+		it, ot := make([]*T, n), make([]*T, n)
+		for i := 0; i < n; i++ {
+			it[i] = m.load(in.AL.sub[int(in.Off.C)+i]).(*T)
+			ot[i] = m.load(out.AL.sub[int(out.Off.C)+i]).(*T)
+		}
+		allC := true
+		for i := 0; i < n; i++ {
+			allC = allC && it[i].IsC && ot[i].IsC
+		}
+		if allC { // concrete vectors: the comparison itself, as the native harness library does it
+			fv := func(t *T) float64 {
+				if w == 32 {
+					return float64(math.Float32frombits(uint32(t.C)))
+				}
+				return math.Float64frombits(t.C)
+			}
+			var l1 float64
+			for i := 0; i < n; i++ {
+				l1 += math.Abs(fv(it[i]))
+			}
+			for k := 0; k < n; k++ {
+				var s float64
+				for j := 0; j < n; j++ {
+					s += fv(it[j]) * math.Cos(math.Pi*float64(2*j+1)*float64(k)/float64(2*n))
+				}
+				if math.Abs(fv(ot[k])-s) > (eps+epsRound)*l1 {
+					return done(BoolC(false))
+				}
+			}
+			return done(BoolC(true))
+		}
+		v, err := m.dctAgree(it, ot, w, eps, epsRound)
+		if err != nil {
+			panic(unsupported{"zzDCTII: " + err.Error()})
+		}
+		m.lraNotes = append(m.lraNotes, fmt.Sprintf("%s n=%d: %d float operations read as exact rational linear forms; rounding-error bound max_k E_k = %.3g (per unit of ||x||_1); largest |coefficient - cos| = %.3g; eps = %.3g, rounding budget %.3g; LRA queries so far %d (unsat %d, sat %d, unknown %d, %.2fs)",
+			call.Parent().Name(), n, v.ops, v.maxErr, v.maxCoefD, eps, epsRound, m.lra.Queries, m.lra.Unsat, m.lra.Sat, m.lra.Unknown, m.lra.Time.Seconds()))
+		if v.unknown {
+			panic(unsupported{"zzDCTII: " + v.note})
+		}
+		if v.ok {
+			return done(BoolC(true))
+		}
+		m.lraNotes = append(m.lraNotes, "counterexample: "+v.note)
+		fmt.Fprintln(os.Stderr, "zzDCTII counterexample:", v.note)
+		// bind the witness (rounded to the float type) into the path so that the replay sees it
+		for i := 0; i < n; i++ {
+			f, _ := v.witness[i].Float64()
+			var bits uint64
+			if w == 32 {
+				bits = uint64(math.Float32bits(float32(f)))
+			} else {
+				bits = math.Float64bits(f)
+			}
+			m.sol.Assert(Eq(it[i], BV(w, bits)))
+		}
+		return done(BoolC(false))
+	}
+	I["zzDCTII64"] = I["zzDCTII32"]
+	I["zzF64s"] = func(m *Machine, fr *Frame, a []Value, call ssa.Instruction, d bool) (Value, int) {
+		name := goString(a[0])
+		n := int(a[1].(*T).C)
+		fn := call.(*ssa.Call).Call.StaticCallee()
+		et := fn.Signature.Results().At(0).Type().Underlying().(*types.Slice).Elem()
+		al := newLoc(types.NewArray(et, int64(n)))
+		for i := 0; i < n; i++ {
+			v := Var(fmt.Sprintf("%s_%d", name, i), 64)
+			if n <= 256 {
+				m.addInput(v)
+			}
+			al.sub[i].v = v
+		}
+		ln := BV(64, uint64(n))
+		return done(Slice{AL: al, Off: BV(64, 0), Len: ln, Cap: ln})
+	}
+	// zzGuardAllocF32(n): a zeroed []float32 (native: placed so that it ends at an inaccessible page)
+	I["zzGuardAllocF32"] = func(m *Machine, fr *Frame, a []Value, call ssa.Instruction, d bool) (Value, int) {
+		n := int(a[0].(*T).C)
+		fn := call.(*ssa.Call).Call.StaticCallee()
+		et := fn.Signature.Results().At(0).Type().Underlying().(*types.Slice).Elem()
+		al := newLoc(types.NewArray(et, int64(n)))
+		for i := 0; i < n; i++ {
+			al.sub[i].v = BV(32, 0)
+		}
+		ln := BV(64, uint64(n))
+		return done(Slice{AL: al, Off: BV(64, 0), Len: ln, Cap: ln})
+	}
 	I["zzIgnoreZeroSign"] = func(m *Machine, fr *Frame, a []Value, call ssa.Instruction, d bool) (Value, int) {
 		old := fpIgnoreZeroSign
 		fpIgnoreZeroSign = true
